@@ -16,7 +16,7 @@ structure HopSite where
   init : Nat
   drop : GExpr        -- over "hops", "ttl"
   shape : List String -- statement order of the loop body, as read
-deriving Repr, DecidableEq
+deriving Repr, DecidableEq, BEq
 
 structure OptRow where
   pkg : String
